@@ -18,6 +18,7 @@ LEVEL_TEXT = {
  "C06": _lt("heap", "Seeded exploration with an object ledger (destructor of a probe type) and the allocator's block ledger: every managed object finalised exactly once and released exactly once by the program-exit teardown that ends every plan, through Box ownership chains, stop/start windows and sweep-time deletions; the teardown point varies with the seeded plan length.", TRUST, "DESIGN.md section 5 C06"),
  "C17": _lt("heap", "Seeded exploration under adversarial address placement: mem(current(GC), p) compared with the ledger for every object ever seen after every operation, plus the registry enumerated through a read-only accessor hook (each object once, root flag, count, marks clear).", TRUST, "DESIGN.md section 5 C17"),
  "C19": _lt("containers+heap", "Invariant monitor over every object handed out by the container and heap simulations (true type, allocation class, size) plus fault enumeration of wrong deallocations / in-place growth on stack, static and embedded objects: must raise ResourceError/ValueError and leave the object intact; the arena ledger flags any free of a non-heap pointer or double free.", TRUST + " Default (checked) build only.", "DESIGN.md section 5 C19"),
+ "C07": _lt("exc", "Seeded exploration of try/catch/throw program trees executed through the real macros (lexical nesting up to 3 in one function, dynamic nesting through calls, filters of arity 0-3, throws from bodies, library calls and handlers, sequences; also one tree per worker thread under the baton scheduler) compared event by event with a reference interpreter; uncaught programs run in a child process that must fail with a diagnostic.", TRUST, "DESIGN.md section 5 C07 and appendix C"),
 }
 
 NOT_APPLICABLE = {
@@ -28,7 +29,6 @@ NOT_APPLICABLE = {
 }
 # claimed in DESIGN.md, check not built yet (removed from here as each check lands)
 NOT_BUILT = {
- "C07": "claimed in DESIGN.md; the exceptions engine for this check is not built yet in this commit",
  "C08": "claimed in DESIGN.md; the dispatch engine for this check is not built yet in this commit",
  "C13": "claimed in DESIGN.md; the threads engine for this check is not built yet in this commit",
  "C18": "claimed in DESIGN.md; the configuration-differential stage is not built yet in this commit",
@@ -36,6 +36,8 @@ NOT_BUILT = {
 }
 
 ENGINES = [
+ {"name": "exc", "path": "sim/scen_exc.c", "serves_properties": ["C07", "C13"],
+  "kind_free_text": "seeded try/catch/throw program trees through the real macros vs a reference interpreter, optionally one tree per Cello worker thread under the baton scheduler"},
  {"name": "heap", "path": "sim/scen_heap.c", "serves_properties": ["C01", "C06", "C17", "C19"],
   "kind_free_text": "seeded heap-mutation plans (Nodes, Ref, Box, containers of refs; stack/root/TLS roots; links, dels, copies, chains, stop/start, bursts) mirrored by a shadow graph and object/block ledgers"},
  {"name": "containers", "path": "sim/scen_containers.c", "serves_properties": ["C02", "C03", "C04", "C05", "C10", "C12", "C16", "C18", "C19"],
